@@ -58,7 +58,13 @@ Qed.
 Lemma running_prefix_closed : forall acc, prefix_closed (running acc).
 Proof.
   intros acc l l'. revert acc. induction l as [|x l IH]; intro acc; cbn. eexists; reflexivity.
-  destruct (IH (acc + x)%Z) as [r E]. exists r. now rewrite E.
+  destruct (IH (acc - x)%Z) as [r E]. exists r. now rewrite E.
+Qed.
+
+Lemma running1_prefix_closed : prefix_closed running1.
+Proof.
+  intros l l'. destruct l as [|x l]; cbn. eexists; reflexivity.
+  destruct (running_prefix_closed x l l') as [r E]. exists r. now rewrite E.
 Qed.
 
 Lemma enum_prefix_closed : forall i d, prefix_closed (enum_mix i d).
@@ -102,7 +108,7 @@ Proof.
   - apply firstn_prefix_closed.
   - apply take_while_prefix_closed.
   - apply skip_until_prefix_closed.
-  - destruct seed; trivial. apply running_prefix_closed.
+  - destruct seed; trivial. apply running1_prefix_closed.
   - apply enum_prefix_closed.
   - apply distinct_prefix_closed.
   - apply with_count_prefix_closed.
